@@ -348,6 +348,20 @@ def add_dim(repo: Repo, chk: Check) -> None:
         chk.result(norm.any_match(["(1,) + self.bounds", "(1, *self.bounds)"], bounds) is not None, "C03.add-dim", f"{f.key}:bounds", s.where(),
                    "new bounds = (1,) + bounds", f"new bounds are {ast.unparse(bounds)[:80]}: the inserted dimension must have bound 1")
         ok = bool(subexprs(pattern, "AffineMap(num_dims=self.num_dims + 1, num_symbols=0, results=tuple((AffineDimExpr($i + 1) for $i in range(self.num_dims))))"))
+        if not ok:
+            # the same map with its results spelled as a list / generator, handed through a helper parameter: tuple([..]), tuple(tuple(..))
+            for _, m_ in subexprs(pattern, "AffineMap(num_dims=self.num_dims + 1, num_symbols=0, results=$r)"):
+                r_ = norm.primary(m_["r"])
+                for _k in range(4):
+                    if isinstance(r_, ast.Call) and isinstance(r_.func, ast.Name) and r_.func.id in ("tuple", "list") and len(r_.args) == 1:
+                        r_ = norm.primary(r_.args[0])
+                if isinstance(r_, (ast.ListComp, ast.GeneratorExp)) and len(r_.generators) == 1 and not r_.generators[0].ifs and isinstance(r_.generators[0].target, ast.Name) \
+                        and norm.match(T("range(self.num_dims)"), r_.generators[0].iter) is not None \
+                        and norm.match(T("AffineDimExpr($i + 1)"), r_.elt, {"i": r_.generators[0].target.id}) is not None:
+                    ok = True
+        if not ok and not any(isinstance(c_, ast.Call) and callee_name(c_) == "AffineMap" for c_ in ast.walk(pattern)):
+            # the map is built somewhere this clause does not look (a helper shared with tile_dim, say): not a verdict
+            raise AnalysisError(f"{s.where()}: the shifted map of add_dim is built by `{ast.unparse(pattern)[:80]}`, which this clause does not look through")
         chk.result(ok and norm.match(T("self.pattern.compose($_)"), pattern) is not None, "C03.add-dim", f"{f.key}:shift", s.where(),
                    "every old index i becomes i + 1", "the index shift of add_dim changed")
 
